@@ -365,6 +365,15 @@ func (x *Node) Propose(minTime uint64) (*block.Block, error) {
 	return x.Comm.Out[len(x.Comm.Out)-1], nil
 }
 
+// ProposeOn is Propose on an explicit (stored) parent block, at the proposer's earliest own slot not before minTime.
+func (x *Node) ProposeOn(parent *chain.BlockSummary, minTime uint64) (*block.Block, error) {
+	flow, err := x.Packer.Schedule(parent, minTime)
+	if err != nil {
+		return nil, fmt.Errorf("%w: %v", ErrNotScheduled, err)
+	}
+	return x.Pack(flow)
+}
+
 // Schedule prepares a packing flow on the node's current best, as packerLoop does, without packing yet.
 func (x *Node) Schedule(minTime uint64) (*packer.Flow, error) {
 	best := x.Repo.BestBlockSummary()
